@@ -40,7 +40,9 @@ fn kill_and_reap_child_proc_group(unreaped_pgid: Option<Pid>) -> Result<(), Erro
             Err(Errno::ESRCH) => Ok(()),
             Err(_) => Err(Error::FailedToKillChildProcessGroup(pgid)),
             Ok(()) => match wait::waitpid(pgid, None) {
-                Ok(_) => Ok(()),
+                // ECHILD: the pending wait on the child (it may have closed its pipes long before it was
+                // killed) has reaped the leader already
+                Ok(_) | Err(Errno::ECHILD) => Ok(()),
                 Err(_) => Err(Error::FailedToReapChildProcessGroup(pgid)),
             },
         }
